@@ -29,6 +29,7 @@ func init() {
 		goTableRule(c, "C11/GO-TABLE")
 		onErrorCancelRule(c, "C11/ONERROR-CANCEL")
 		initBeforePublishRule(c, "C11/INIT-BEFORE-PUBLISH", "server", 1)
+		connRegistriesRule(c, "C11/CONN-REGISTRIES")
 		lockOrderRule(c, "C11/LOCK-ORDER", 3)
 		c11OrphanSession(c)
 		c11CloseRegistered(c)
